@@ -52,8 +52,10 @@ func leafOf(t Tree) map[string]any {
 	out := map[string]any{"top": t["op"], "op": "NIL", "ty": "", "codes": []int{}, "col": []int{}}
 	r, ok := t["r"].(Tree)
 	l, ok2 := t["l"].(Tree)
+	str := func(x any) string { s, _ := x.(string); return s }
+	out["top"] = str(t["op"])
 	if ok && ok2 {
-		out["op"], out["ty"] = r["op"], r["ty"]
+		out["op"], out["ty"] = str(r["op"]), str(r["ty"])
 		if v, isStr := r["v"].(string); isStr {
 			out["codes"] = codes(v)
 		}
